@@ -682,3 +682,10 @@ def eq(a, b):
         return bool(r)
     except Exception:
         return False
+
+
+# symbolic numbers are numbers: code under test that asks isinstance(x, numbers.Number)
+# (e.g. to tell plain values from containers) must see them as such
+import numbers as _numbers
+_numbers.Integral.register(SymInt)
+_numbers.Real.register(SymReal)
